@@ -101,7 +101,7 @@ Fixpoint union_els (off : nat) (gs : list tgrid) (sw : list bool) : list elem :=
 Definition union (gs : list tgrid) (swapped : option (list bool)) (mode : nat) (given : option (list nat)) : tgrid :=
   let sw := match swapped with Some s => s | None => [] end in
   let doms := match given with
-              | Some ds => map (fun p => map (fun _ => snd p) (snd (fst p))) (combine gs ds)
+              | Some ds => map (fun p => map (fun _ => snd p) (snd (fst (fst p)))) (combine gs ds)
               | None => union_doms mode 0 true gs
               end in
   (fold_right Nat.add 0 (map (fun g => fst (fst g)) gs), union_els 0 gs sw, concat doms).
